@@ -23,7 +23,7 @@ func init() {
 		ID:    "C02",
 		Title: "Projection emits one row per kept row with correctly computed columns",
 		Level: "exploration",
-		Rule: "the table also as inner arrays of a fan-out path (with and without WHERE); column names with letters beyond ASCII, plain and qualified. select lists also under every column naming mode, over envelope rows, with missing names that begin with the table's name and with open-ended range paths over per-row arrays. a share of the cases is spelled with double-quoted identifiers and run under PostgresEscapingDialect. each case = random table x select list of 1..8 items (*, bare/qualified columns, back-ticked nested paths, aliased expression trees of depth 0..5 over + - * / DIV % & | ^ << >>, unary - ~ !, CASE WHEN [ELSE], literals, missing keys, NULL operands) " +
+		Rule: "finite results through an infinite intermediate; inner-array sources under the naming modes. the table also as inner arrays of a fan-out path (with and without WHERE); column names with letters beyond ASCII, plain and qualified. select lists also under every column naming mode, over envelope rows, with missing names that begin with the table's name and with open-ended range paths over per-row arrays. a share of the cases is spelled with double-quoted identifiers and run under PostgresEscapingDialect. each case = random table x select list of 1..8 items (*, bare/qualified columns, back-ticked nested paths, aliased expression trees of depth 0..5 over + - * / DIV % & | ^ << >>, unary - ~ !, CASE WHEN [ELSE], literals, missing keys, NULL operands) " +
 			"x optional WHERE from the C01 grammar; the real Exec output is compared with a reference evaluator that performs the same IEEE-754 operations in the same association order (bit-exact, no tolerance): row count, key set and every value. " +
 			"Out-of-domain trees (zero divisor, non-finite intermediate, non-integral/negative operands of integer operators, unary operator on NULL) are discarded and counted. Non-trivial = at least one output row and at least one computed (non-column) item; distinct = distinct (table, SQL).",
 		Assumptions: []string{
